@@ -123,20 +123,41 @@ def _svd_calls(pm, fn: FuncInfo):
     return out
 
 
-def _dict_keys_and_values(ff: FuncFacts, e: ast.expr):
-    """keys written into the dict value ``e`` (dict displays merged with |, later setdefault calls on the
-    same variable) -> {key: [paths of the value]}"""
+def _gkeys(ff: FuncFacts, node) -> set:
+    return {(norm(g.test), g.polarity, norm(g.pattern) if g.pattern is not None else "") for g in ff.guards(node)}
+
+
+def _dict_keys_and_values(ff: FuncFacts, e: ast.expr, call: ast.AST | None = None):
+    """keys written into the dict value ``e`` (dict displays merged with |, item assignments and setdefault calls on the
+    same variable in the same branch as ``call``) -> {key: [paths of the value]}; a key that is only set under an
+    additional condition is recorded as ``key?conditional``"""
     keys: dict[str, list[Path]] = {}
     for p in ff.paths(e, spine_only=False):
         for o in p.ops:
             if o.kind == "dictval":
                 keys.setdefault(o.name, []).append(p)
                 break
-    # <var>.setdefault("k", v) anywhere in the function on the same variable name
+    gc = _gkeys(ff, call) if call is not None else None
     if isinstance(e, ast.Name):
+        for st in ff.statements():
+            if isinstance(st, ast.Assign):
+                for t in st.targets:
+                    if isinstance(t, ast.Subscript) and isinstance(t.value, ast.Name) and t.value.id == e.id and const_str(t.slice):
+                        k = const_str(t.slice)
+                        gs = _gkeys(ff, st)
+                        if gc is not None and not (gs >= gc or gs <= gc):
+                            continue  # another branch
+                        ps = list(ff.paths(st.value, spine_only=False))
+                        if gc is not None and gs > gc:
+                            keys.setdefault(k + "?conditional", []).extend(ps)
+                        else:
+                            keys.setdefault(k, []).extend(ps)
         for c in ff.calls():
             if isinstance(c.func, ast.Attribute) and c.func.attr == "setdefault" and isinstance(c.func.value, ast.Name) and c.func.value.id == e.id and c.args:
                 k = const_str(c.args[0])
+                gs = _gkeys(ff, c)
+                if gc is not None and not (gs >= gc or gs <= gc):
+                    continue
                 if k:
                     keys.setdefault(k, [])
     return keys
@@ -156,14 +177,17 @@ def _wrappers(chk):
             chk.check(_mentions_solver_kwargs(ff, kw), "WIRE.arrive", fn, call,
                       why=f"the {solver} branch does not hand the user's solver_kwargs to the solver",
                       construct=f"{solver}: {norm(kw)}")
-            keys = _dict_keys_and_values(ff, kw)
-            per[solver] = sorted(keys)
+            keys = _dict_keys_and_values(ff, kw, call)
+            per[solver] = sorted(k.replace('?conditional', '') for k in keys)
             if solver in SEED_KW:
                 sk = SEED_KW[solver]
                 ps = keys.get(sk, [])
                 seeded = any(p.atom.kind == "selfattr" and p.atom.name == "self.random_state" for p in ps)
+                cond = (sk + "?conditional") in keys
                 chk.check(seeded, "RNG.solver", fn, call,
-                          why=f"randomised solver {solver} is not seeded: keyword {sk!r} must carry self.random_state",
+                          why=(f"randomised solver {solver} receives {sk!r} only under a condition: when the condition fails (e.g. the falsy seed 0) "
+                               "the solver runs unseeded and equal random_state no longer gives identical results") if cond else
+                              f"randomised solver {solver} is not seeded: keyword {sk!r} must carry self.random_state",
                           construct=f"{solver}: seed keyword {sk}", facts={"keys": sorted(keys)})
             elif solver == EXACT:
                 chk.ok("RNG.solver", fn, call, construct=f"{solver}: deterministic", nontrivial=False)
